@@ -87,3 +87,15 @@ CLAIMS["C17"] = (
     "Trusted: mc/ref objective and certificate. LBFGS / PDCD_WS exempt from the stop-value clause (other units). Known "
     "finding: FISTA's stale-gradient stopping value.",
     "DESIGN.md §4 C17")
+CLAIMS["C13"] = (
+    "exploration",
+    "exhaustive enumeration of the finite composition matrix (every cell validated; accepted cells executed one per checkpointed step in self-managed workers so that crashes and non-termination are observations)",
+    "All 12 236 cells 14 solver variants x 14 datafits x 19 penalties x {dense, CSC} x {fit_intercept} are submitted to the "
+    "library's validation; every refusal must be an AttributeError/ValueError naming what is lacking. Accepted cells (1 700+) are "
+    "run by solve() on a small problem of the right kind (quick: covering subset of every accepted (solver, datafit, storage) "
+    "and (solver, penalty) pair; thorough: all): the outcome must be an explained refusal or a finite result passing the "
+    "certificate; a compiled-code typing/index/arithmetic error, NaN/inf, worker death or CPU-horizon overrun is a violation "
+    "attributed to the cell.",
+    "One problem per data kind (6x3). 'Explained' is decided by message patterns listed in the driver plus hasattr "
+    "confirmation of the named attribute.",
+    "DESIGN.md §4 C13")
